@@ -274,10 +274,10 @@ def _kan_props(modules, rule, oracle_pass=None, oracle_project=None, nontrivial=
 
 
 PROPS = {
-    'C02': _kan_props(['KVerif.Props.C02'],
+    'C02': _kan_props(['KVerif.Props.C02', 'KVerif.Props.C02frag'],
         'hand-written capacity-edge shapes (11-14 held layers, 18 stacked one-shot layers, repeat re-entering its container, 11 concurrent tap-holds + queue flood, every valid key code once) plus random whole-grammar configurations (incl. custom actions) driven by histories that are not physically consistent (repeated presses, stray releases, repeat and tap events, unmapped codes, floods of 70-200 events); non-trivial = output changed at least twice; oracle: every configuration the real parser accepts must satisfy CfgWF (evaluated by the driver on the serialised parse result) and must be processed without panic/abort/hang',
         None, _crash_or_ok),
-    'C01': _kan_props(['KVerif.Props.C01'],
+    'C01': _kan_props(['KVerif.Props.C01', 'KVerif.Props.C01q2'],
         'non-latching whole-grammar configurations (layers, tap-hold variants, tap-dance, one-shot variants, chords v1, macros, fork/switch, multi, release-key/layer, unmod, mouse wheel/move, virtual keys operated by tap/release only, hold-for-duration, on-idle) and balanced histories - every pressed key is released, incl. bursts of 40-120 events overflowing the 32-slot queue - followed by 3000 quiet ticks; plus 20 keys pressed at once with 12-key multis (> 64 states), tap-holds (> 8), one-shot layers (> 16), macros (> 4) and tap-dances; non-trivial = output changed at least twice; oracle on the real trace: nothing down at the OS at the end, nothing emitted during the last 500 ms, kanata reports idle',
         'C01o'),
     'C07': _kan_props(['KVerif.Props.C07'],
@@ -286,7 +286,7 @@ PROPS = {
     'C18': _kan_props(['KVerif.Props.C18'],
         'virtual keys with marker outputs (also a layer, a macro, a one-shot, a tap-hold as virtual key action) operated by on-press/on-release fake-key actions (press, release, tap, toggle), direct handle_fakekey_action calls, hold-for-duration with durations {1,2,3,5,10,50} x re-activation gaps {0,1,D-1,D,D+1,D+5} x 1-3 activations, on-idle actions under the virtual-time processing loop with idle durations {5,20,100} and typing that restarts the idle clock, plus random unsettled mixes; non-trivial = output changed at least twice; oracle on the implementation trace: settled operation sequences leave the virtual key held/up as press/release/tap/toggle prescribe, hold-for-duration releases no earlier than D after an activation and ends released, on-idle fires exactly once, not before D ms of idleness',
         'C18o'),
-    'C14': _kan_props(['KVerif.Props.C14'],
+    'C14': _kan_props(['KVerif.Props.C14', 'KVerif.Props.C14link'],
         'simple single-layer configurations (plain keys, output chords, multi, use-defsrc, reserved no-op keys; one in four with global overrides, whose table the harness reads from the configuration text) and whole-grammar configurations on 1-4 layers (tap-hold, tap-dance, one-shot, fork, switch, chords v1, unmod/unshift, virtual keys), keys held while OS repeat events are injected after any event; the key-output table recomputed by the model from the serialised actions is compared with the table the real parser built; non-trivial = a repeat event was injected while a key was down and the output changed at least twice; oracle on the implementation trace: at most one event per repeat, only for a key that is down at the OS, and on simple configurations a repeat for the last-listed output that is down',
         'C14o', None, lambda case, impl: ' rp ' in case and impl.count('@') >= 2),
     'C05': _lay_props(['KVerif.Props.C05', 'KVerif.Props.C05multi'],
@@ -1845,3 +1845,41 @@ PROPS['C10']['describe'] = lambda c: _lay_describe(c) if c.startswith('KAN') els
 PROPS['C10']['shrink_candidates'] = lambda c: _lay_shrink(c) if c.startswith('KAN') else []
 PROPS['C10']['determined'] = lambda case, out: _kan_evseq(case, out) if case.startswith('KAN') else out
 PROPS['C10']['determined_what'] = 'the order of the events sent to the OS (layout-level fork/switch cases), the opcodes and firing cases otherwise'
+
+
+def _c01_free_oracle(case, impl):
+    """configurations outside the kanata-level model: the statement's observable on the real trace
+    alone - nothing down at the OS after the quiet tail, idle reported"""
+    if ' :: TRACE ' not in impl or ' HIST ' not in case:
+        return None
+    # the clause speaks about balanced histories followed by a quiet tail
+    toks = case.split(' HIST ')[1].split(' ')[1:]
+    down, i, last_tick = set(), 0, 0
+    while i < len(toks):
+        if toks[i] in ('p', 'r') and i + 2 < len(toks) + 0:
+            key = (toks[i + 1], toks[i + 2])
+            if toks[i] == 'p':
+                if key in down:
+                    return None
+                down.add(key)
+            else:
+                if key not in down:
+                    return None
+                down.discard(key)
+            last_tick = 0
+            i += 3
+        elif toks[i] == 't':
+            last_tick = int(toks[i + 1])
+            i += 2
+        else:
+            return None
+    if down or last_tick < 2000:
+        return None
+    tr = impl.split(' :: TRACE ')[1]
+    fin = _kan_final(case, tr)
+    if fin == 'down= idle=1':
+        return 'ok'
+    return 'fail outside the model: at the end of the quiet tail ' + fin
+
+
+PROPS['C01']['free_oracle'] = _c01_free_oracle
